@@ -3,6 +3,7 @@ from __future__ import annotations
 
 import importlib
 import json
+import os
 import pkgutil
 import time
 from pathlib import Path
@@ -34,7 +35,7 @@ def verifier() -> Verifier:
 
 def _register_function(ctx: Ctx, v: Verifier, target: str, kind: str = "P") -> None:
     try:
-        mod, node, ci = v.ex.repo.function(target)
+        mod, node, ci = v.ex.repo.function(REGISTRY[target].target if target in REGISTRY else target)
         ctx.function_under_contract(target, str(mod.path), node.lineno, v.ex.repo.source_of(mod, node), kind)
     except Exception as e:  # noqa
         ctx.note(f"contract target {target} not found in the current source: {e}")
@@ -96,16 +97,21 @@ def _worker(job) -> Dict[str, Any]:
     logging.disable(logging.CRITICAL)
     target, prop = job
     v = verifier()
+    v.second_backend = os.environ.get("VERIF_SECOND_BACKEND", "") == "1"
+    v.stats = {k: 0 for k in v.stats}
+    v.disagreements = []
     t0 = time.time()
     obls = v.verify(target, only=REGISTRY[target].clauses_for(prop))
     recs = [_decide(v, o, target) for o in obls]
     return {"target": target, "records": recs, "assumed": sorted(getattr(v.ex, "assumed_used", ())),
+            "stats": dict(v.stats), "disagreements": list(v.disagreements),
             "inlined": sorted(v.ex.inlined_seen), "seconds": time.time() - t0,
             "unknown_calls": sorted(getattr(v.ex, "unknown_calls", ()))}
 
 
 def _lemma_worker(key: str) -> Dict[str, Any]:
     v = verifier()
+    v.second_backend = os.environ.get("VERIF_SECOND_BACKEND", "") == "1"
     o = v.verify_lemma(key)
     rec = _decide(v, o, None)
     if rec["status"] == "violated":
@@ -131,7 +137,18 @@ def prove(ctx: Ctx, targets: Sequence[str], kind: str = "P", by_property: bool =
     v = verifier()
     for t in targets:
         _register_function(ctx, v, t, kind)
+    if ctx.tier == "thorough":
+        os.environ["VERIF_SECOND_BACKEND"] = "1"  # inherited by the forked workers
     for res in _pool_map(_worker, [(t, ctx.prop if by_property else None) for t in targets]):
+        st = res.get("stats", {})
+        sb = ctx.crosscheck.setdefault("second_backend", {"queries": 0, "cvc5_unsat": 0, "cvc5_unknown": 0, "cvc5_sat": 0,
+                                                          "z3old_unsat": 0, "z3old_unknown": 0, "z3old_sat": 0})
+        sb["queries"] += st.get("second_backend_queries", 0)
+        for k in ("cvc5_unsat", "cvc5_unknown", "cvc5_sat", "z3old_unsat", "z3old_unknown", "z3old_sat"):
+            sb[k] += st.get(k, 0)
+        for d in res.get("disagreements", [])[:3]:
+            ctx.obligation(f"backends-agree/{res['target'].split(':')[-1]}", "undecided",
+                           backend="cvc5 1.0.3 / z3 4.8.12 via SMT-LIB2", detail=d)
         if not res["records"]:
             raise RuntimeError(f"zero obligations generated for {res['target']}: checker error")
         for rec in res["records"]:
